@@ -11,7 +11,9 @@ static unsigned g_diag;		/* diagnostics emitted (perror & friends) */
 
 int fputs(const char *s, FILE *f)
 {
-	(void)s; (void)f;
+	(void)s;
+	if (f == stderr)
+		g_diag += 1;
 	return 0;
 }
 
